@@ -64,7 +64,12 @@ def case_strategy(draw, tier):
         # the codes are "in the file" however the file is laid out
         q['layout'] = draw(st.sampled_from(['lines', 'lines', 'crlf', 'trailing-blank', 'comment', 'one-line-spaces',
                                             'one-line-commas', 'no-final-newline', 'indented']))
-    return {'pels': pels, 'query': q, 'hex': False}
+    junk = []
+    if draw(st.integers(0, 2)) == 0:
+        for k in range(draw(st.integers(1, 4))):
+            junk.append([draw(st.sampled_from(['0000_junk%d', 'zzzz_junk%d', '1718273645091827_junk%d', 'README%d'])) % k,
+                         draw(st.sampled_from([b'', b'not a PEL', b'PH\x00\x30', b'\xff' * 80]))])
+    return {'pels': pels, 'query': q, 'hex': False, 'junk': junk}
 
 
 def spell_id(v, how):
@@ -98,6 +103,10 @@ def lookups(case, note):
         d = os.path.join(top, 'logs')
         os.makedirs(d)
         D.write_files(d, {nm: M.encode(p) for nm, p in zip(names, pels)})
+        # files that are no PELs at all live in the directory too; they must not hide the matches
+        D.write_files(d, {nm: data for nm, data in case.get('junk', [])})
+        if case.get('junk'):
+            note.label('with-junk-files')
         kind = q['kind']
         if kind in ('plid', 'src', 'src-exclude'):
             if kind == 'plid':
